@@ -17,7 +17,7 @@ META = {
     "rule": (
         "exhaustive: every single-permutation basis of length <= 4 x every direction word of the pin-sequence "
         "language M of length 0..L (L = 9 quick, 10 thorough), through make_dfa_for_perm / make_dfa_for_basis / "
-        "_from_pinwords / _from_db; every pair of permutations of length <= 3 (4 thorough) for the finiteness verdict; generated: bases of 1-3 permutations of length <= 4 (5 thorough) biased to pin "
+        "_from_pinwords / _from_db; every pair of permutations of length <= 3 (4 thorough) for the finiteness verdict and of length <= 4 for database/scratch equivalence; generated: bases of 1-3 permutations of length <= 4 (5 thorough) biased to pin "
         "permutations. Oracle: a word w of M with |w| >= 2 encodes the strict pin word m_to_sp(w); accepted iff the "
         "reference model says decode(that word) contains a basis element; words shorter than 2 encode nothing. "
         "has_finite_pinperms is compared with an own cycle search on the product (M x complement) built from the "
@@ -310,6 +310,11 @@ def shard_pairs_finite(acc, shard, nshards, max_len):
     for i, (a, b) in enumerate(itertools.combinations(perms, 2)):
         if i % nshards == shard:
             acc.record("finite", check_finite, {"basis": [a, b]})
+    # database route vs from-scratch route: language equivalence for every pair up to length 4
+    perms4 = [list(p) for p in ref.perms_upto(4, 1)]
+    for i, (a, b) in enumerate(itertools.combinations(perms4, 2)):
+        if i % nshards == shard:
+            acc.record("db", check_db, {"basis": [a, b]})
 
 
 def pin_perms(n):
